@@ -278,6 +278,49 @@ fn run(name: &str, j: &J) -> Result<bool, String> {
             } } }
             Ok(true)
         }
+        // C05: the hops of a foreign-key path, through the public PrivacyUnitPath API
+        "c05_path_hops" | "c05_path_search" => {
+            use qrlew::privacy_unit_tracking::privacy_unit::{PrivacyUnitPath, PRIVACY_UNIT, PRIVACY_UNIT_WEIGHT};
+            let check = |steps: &[(String, String, String)], field: &str, weight: Option<&str>| -> Option<String> {
+                let sv: Vec<(&str, &str, &str)> = steps.iter().map(|(a, b, c)| (a.as_str(), b.as_str(), c.as_str())).collect();
+                let pp: PrivacyUnitPath = match weight { Some(w) => (sv, field, w).into(), None => (sv, field).into() };
+                let hops: Vec<_> = pp.into_iter().collect();
+                if hops.len() != steps.len() { return Some(format!("{} hops for {} steps", hops.len(), steps.len())); }
+                for (k, h) in hops.iter().enumerate() {
+                    let last = k + 1 == steps.len();
+                    let referring = if k == 0 { steps[0].0.as_str() } else { PRIVACY_UNIT };
+                    let carried = if last { field } else { steps[k + 1].0.as_str() };
+                    if h.referring_id != referring || h.referred_relation != steps[k].1 || h.referred_id != steps[k].2 {
+                        return Some(format!("hop {} joins {} -> {}.{}; the path says {} -> {}.{}", k, h.referring_id, h.referred_relation, h.referred_id, referring, steps[k].1, steps[k].2));
+                    }
+                    if h.referred_fields.first().map(|s| s.as_str()) != Some(carried) || h.referred_fields_names.first().map(|s| s.as_str()) != Some(PRIVACY_UNIT) {
+                        return Some(format!("hop {} carries column {:?} of {} as {:?}; the next hop joins on {:?}", k, h.referred_fields.first(), steps[k].1, h.referred_fields_names.first(), carried));
+                    }
+                    if let Some(w) = weight {
+                        if h.referred_fields.len() != 2 || h.referred_fields_names.get(1).map(|s| s.as_str()) != Some(PRIVACY_UNIT_WEIGHT) || (last && h.referred_fields[1] != w) {
+                            return Some(format!("hop {} weight columns {:?} as {:?}", k, h.referred_fields, h.referred_fields_names));
+                        }
+                    } else if h.referred_fields.len() != 1 { return Some(format!("hop {} carries {:?}", k, h.referred_fields)); }
+                }
+                None
+            };
+            let parse = |j: &J| -> Vec<(String, String, String)> { j["steps"].as_array().map(|v| v.iter().map(|s| (s[0].as_str().unwrap().to_string(), s[1].as_str().unwrap().to_string(), s[2].as_str().unwrap().to_string())).collect()).unwrap_or_default() };
+            if name == "c05_path_hops" {
+                let r = check(&parse(j), j["field"].as_str().unwrap(), j["weight"].as_str());
+                if let Some(m) = &r { println!("  {}", m); }
+                return Ok(r.is_none());
+            }
+            // search: paths of 1..=3 steps with pairwise distinct column / table names, with and without a weight column
+            for n in 1..=3usize { for weight in [None, Some("w")] {
+                let steps: Vec<(String, String, String)> = (0..n).map(|k| (format!("fk{}", k), format!("t{}", k), format!("pk{}", k))).collect();
+                if let Some(m) = check(&steps, "name", weight) {
+                    println!("  {}", m);
+                    println!("QX-WITNESS {}", serde_json::json!({"steps": steps.iter().map(|(a, b, c)| vec![a, b, c]).collect::<Vec<_>>(), "field": "name", "weight": weight}));
+                    return Ok(false);
+                }
+            } }
+            Ok(true)
+        }
         _ => Err(format!("unknown replay `{}`", name)),
     }
 }
